@@ -21,6 +21,7 @@ import re
 from hypothesis import strategies as st
 
 from vlib.core import Campaign, hyp_campaign
+from vlib import fuzz as F
 
 PROPERTY = "C17"
 RULE = ("HTML-like documents assembled from elements: anchors (3 quoting styles, extra attributes before/after, upper-"
@@ -73,6 +74,8 @@ def ref_links(base, hrefs, canonicalize, unique, strip_fragment):
             continue
         if canonicalize:
             url = canonicalize_url(url, strip_fragment=strip_fragment)
+            if not is_url(url, require_protocol=True, tld_aware=True, allow_spaces_in_path=True, only_http_https=True):
+                continue   # 'every yielded link is accepted by is_url': also in its canonical form (':00008' -> ':8' is not)
         if url == base:
             continue
         if unique:
@@ -163,6 +166,58 @@ def eval_html(case):
     return dedup
 
 
+def eval_rawdoc(case):
+    """relations that need no expected list, for *any* document text: str / bytes agreement, nothing raises, and every yielded link satisfies
+    the statement's validity clauses (the yields are also a sub-sequence of what urls_from_html extracts, resolved)"""
+    from ural import urls_from_html, links_from_html, is_url, should_follow_href, canonicalize_url
+    doc, base = case["doc"], case["base"]
+    opts = dict(canonicalize=case["canonicalize"], unique=case["unique"], strip_fragment=case["strip_fragment"])
+    out = []
+    try:
+        s = list(urls_from_html(doc))
+        b = list(urls_from_html(doc.encode("utf-8")))
+    except Exception as e:  # noqa
+        return [("C17/urls/raises", "urls_from_html(%r) raised %r" % (doc, e))]
+    if s != b:
+        out.append(("C17/urls/str-vs-bytes", "urls_from_html(%r): str gives %r, utf-8 bytes give %r" % (doc, s, b)))
+    for u in s:
+        if u != u.strip() or u != unescape(u) and "&" not in unescape(u):
+            out.append(("C17/urls/not-stripped", "urls_from_html(%r) yielded %r" % (doc, u)))
+            break
+    res = {}
+    for form, d in (("str", doc), ("bytes", doc.encode("utf-8"))):
+        try:
+            res[form] = list(links_from_html(base, d, **opts))
+        except Exception as e:  # noqa
+            out.append(("C17/links/raises", "links_from_html(%r, %s %r, %r) raised %r" % (base, form, doc, opts, e)))
+    if len(res) == 2 and res["str"] != res["bytes"]:
+        out.append(("C17/links/str-vs-bytes", "links_from_html(%r, %r, %r): str gives %r, bytes give %r" % (base, doc, opts, res["str"], res["bytes"])))
+    links = res.get("str", [])
+    desc = "links_from_html(%r, %r, %r) = %r" % (base, doc, opts, links)
+    try:
+        eff_base = canonicalize_url(base, strip_fragment=opts["strip_fragment"]) if opts["canonicalize"] else base
+        for l in links:
+            if not HTTP.match(l) or not is_url(l, require_protocol=True, tld_aware=True, allow_spaces_in_path=True, only_http_https=True):
+                out.append(("C17/links/not-a-url", desc + ": %r is not an absolute http(s) URL accepted by is_url" % (l,)))
+            elif not should_follow_href(l):
+                out.append(("C17/links/not-followable", desc + ": %r" % (l,)))
+            if l == eff_base:
+                out.append(("C17/links/self-link", desc + ": contains the base url %r" % (eff_base,)))
+            if opts["canonicalize"] and canonicalize_url(l, strip_fragment=opts["strip_fragment"]) != l:
+                out.append(("C17/links/not-canonical", desc + ": %r is not canonical" % (l,)))
+    except Exception as e:  # noqa
+        out.append(("C17/links/raises", desc + ": checking the yields raised %r" % (e,)))
+    if opts["unique"] and len(set(links)) != len(links):
+        out.append(("C17/links/duplicates", desc))
+    case["_links"] = bool(links) or bool(s)
+    seen, dedup = set(), []
+    for rel, det in out:
+        if rel not in seen:
+            seen.add(rel)
+            dedup.append((rel, det))
+    return dedup
+
+
 def _tricky(case):
     return any(e.get("k") == "a" and any(t in (e.get("before", "") + e.get("after", "")) for t in (">", "href=")) for e in _all_elements(case.get("elements", [])))
 
@@ -193,10 +248,10 @@ def _neutralise_tricky(case):
 
 TRIGGERS = {"markup-inside-another-attribute": (_tricky, _neutralise_tricky)}
 
-EVALUATORS = {"html": eval_html}
+EVALUATORS = {"html": eval_html, "rawdoc": eval_rawdoc}
 
 BASE = "http://www.site.com/dir/page.html"
-HREFS = ["http://lemonde.fr:99999/x", "//[x", "http://[@lemonde.fr/", "http://[::1", "http://a.com:abc/", "http://[::1]:8080/ok", "\n  http://a.com/nl\n", "http://a.com/?id=3&amp;amp;copy=2", "/a&amp;#x2F;b&amp;lt;", "//intranet/d", "//static.site.zzzz/c", "//localhost/x", "http://a.com/x", "https://b.org/y?z=1&amp;w=2", "//c.net/p", "/rel", "rel/x", "../up", "#frag", "javascript:void(0)", "mailto:x@y.z", "",
+HREFS = ["http://a.com:00008/x", "http://lemonde.fr:99999/x", "//[x", "http://[@lemonde.fr/", "http://[::1", "http://a.com:abc/", "http://[::1]:8080/ok", "\n  http://a.com/nl\n", "http://a.com/?id=3&amp;amp;copy=2", "/a&amp;#x2F;b&amp;lt;", "//intranet/d", "//static.site.zzzz/c", "//localhost/x", "http://a.com/x", "https://b.org/y?z=1&amp;w=2", "//c.net/p", "/rel", "rel/x", "../up", "#frag", "javascript:void(0)", "mailto:x@y.z", "",
          "http://bad.zzzz/x", BASE, "HTTP://A.COM/x", "http://a.com/x#frag", "http://a.com/a&#x2F;b", "http://a.com/é", "/p?q=1&amp;r=2",
          "http://a.com:80/x/../x", "http://www.site.com/dir/page.html#top", "page.html", "?q=2", "http://a.com/%7Ex", "http://a.com/~x", "ftp://f.org/z",
          "  http://a.com/padded  ", "http://localhost:8000/x", "tel:+33", "/a:b", "http://xn--9ca.fr/", "http://é.fr/"]
@@ -315,9 +370,27 @@ def _strategy(tier):
         lambda v: dict(kind="html", elements=v[0], base=v[2], **v[1]))
 
 
+def _fuzz_doc(data):
+    if len(data) < 2:
+        return None
+    k = data[0]
+    return {"kind": "rawdoc", "doc": F.text_from_bytes(data[1:]), "base": BASES[(k >> 3) % len(BASES)],
+            "canonicalize": bool(k & 1), "unique": bool(k & 2), "strip_fragment": bool(k & 4)}
+
+
+FUZZ_TARGETS = {"rawdoc": (_fuzz_doc, lambda c: c.pop("_links", False), None)}
+FUZZ_DICT = ["<a href=", "<a href=\"", "<A HREF='", "\">", "'>", "</a>", "<script>", "</script>", "<script", " href=", "&amp;", "&#x2F;", "&lt;", "http://a.com/x", "https://b.org/y?z=1",
+             "//c.net/p", "/rel", "../up", "#frag", "javascript:void(0)", "mailto:x@y.z", " title=\"a>b\"", " class=c", "\n", "\t", " ", "\xa0", "é", "<abbr ", "<area ", ">", "<", "\"", "'",
+             "http://www.site.com/dir/page.html", "http://[::1]/", "http://a.com:99999/", "//[x", "%20", "%C3%A9", "?q=1", "&", "="]
+
+
 def campaigns(tier, seed):
     quick = tier == "quick"
     return [
+        Campaign("documents-coverage-guided", F.fuzz_campaign("rawdoc", runs=(2500, 150000), max_len=120, dictionary=FUZZ_DICT,
+                                                              corpus=["\x01<a href=\"http://a.com/x\">x</a> <a class=c href='/rel'>y</a><script><a href=\"http://js.com\"></script>",
+                                                                      "\x07<A HREF=//c.net/p title=t>z <a href=\"http://www.site.com/dir/page.html#f\">"]), "atheris",
+                 bounds="libFuzzer over 1 option byte + a UTF-8 document <= 119 bytes: str / bytes agreement, nothing raises, every yielded link satisfies the validity clauses"),
         Campaign("documents-exhaustive", _enum, "enumeration", exhaustive=True,
                  bounds="every document of <=%d elements over a %d-element pool (single elements under all 8 option sets x 5 bases; longer ones rotate them)%s" % (
                      2, len(elements_pool()), "" if quick else "; plus all 3-element documents over every 4th pool element"),
